@@ -131,9 +131,11 @@ def check(case, res):
     return                       # text of unrepresentable intervals may be missing: styles and settings are not compared
   visible = [c for c in cues if any(l.strip() for l in c.lines)]
   for c in visible:
-    keep = [i for i, l in enumerate(c.lines) if l != ""]
+    keep = [i for i, l in enumerate(c.lines) if l.strip() != ""]
     c.lines = [c.lines[i] for i in keep]
     c.styles = [c.styles[i] for i in keep]
+  for e in exp:
+    e.lines = [l for l in e.lines if "".join(ch.c for ch in l).strip() != ""]
   if len(visible) != len(exp):
     return                       # cue structure is C06's business
   cuecheck.compare_styles(exp, visible, res, fmt, css, formatting)
